@@ -14,7 +14,7 @@ def jobs():
     t = tier()
     to = 600 if t == 'quick' else 2400
     js = []
-    look = [('NEXT=1', 'NOPS=2'), ('NEXT=2', 'NOPS=2')] if t == 'quick' else [('NEXT=1', 'NOPS=2'), ('NEXT=2', 'NOPS=2'), ('NEXT=3', 'NOPS=2'), ('NEXT=2', 'NOPS=3'), ('NEXT=2', 'NOPS=2', "FIRSTCH='x'")]
+    look = [('NEXT=1', 'NOPS=2'), ('NEXT=2', 'NOPS=2')] if t == 'quick' else [('NEXT=1', 'NOPS=2'), ('NEXT=2', 'NOPS=2'), ('NEXT=3', 'NOPS=2'), ('NEXT=2', 'NOPS=2', "FIRSTCH='x'")]    # ('NEXT=2','NOPS=3') gives no verdict in 2400 s: outside the bound
     for d in look:
         js.append(cbmc.Job('c20.lookup.' + '_'.join(d).replace('=', '').replace("'", ''), [H] + TUS, 'h_lookup', defs=list(d), unwind=8, timeout=to, ub_notes=UB, funcs=F1))
     rules = [(0, '0,1,1', 1), (0, '0,1,0', 0), (7, '0,0,2', 0), (0, '1,1,1', 1), (0, '2,1,2', 1)]
@@ -34,7 +34,7 @@ def jobs():
 
 def main():
     rep = Report('C20', 'model_checking')
-    rep.bounds = dict(extra_sets='1..3', opcodes_per_extra_set='2..3', names='first byte a configuration constant ("a": prefixes/extensions/duplicates of the built-in names addb, addw, ab occur), remaining <=3 bytes arbitrary',
+    rep.bounds = dict(extra_sets='1..3', opcodes_per_extra_set='2 (3 opcodes with 2 extra sets: no verdict in 2400 s, outside)', names='first byte a configuration constant ("a": prefixes/extensions/duplicates of the built-in names addb, addw, ab occur), remaining <=3 bytes arbitrary',
                       rule_sets='3 new rule sets after a fill level of 0/3/7 existing ones (capacity 10 respected), majors enumerated, required flags and query flags arbitrary 32-bit',
                       emulation='hand-built code object using one extension opcode and one built-in, n in 1..16')
     rep.assume('registration beyond ORC_N_RULE_SETS / ORC_N_TARGETS is outside the property (quantifier: up to the capacity); noted in DESIGN.md as an unchecked limit in orc_rule_set_new/orc_target_register',
